@@ -32,13 +32,35 @@ static void spy_scan(const char *dir, ObjectOp op, int slot, const void *p, size
     if (kind) printf("wireleak dir=%s op=%d slot=%d off=%d what=%s\n", dir, (int)ObjectOp_methodID(op), slot, (int)off, kind == 1 ? "context" : "invoke");
   }
 }
+/* with L2_WIRE set the spy also prints what is on the wire: op, counts word, the bytes of every input
+   buffer before the call, the capacity of every output buffer, and after a successful call the
+   returned size and bytes of every output buffer (C03: all backends produce and accept the same bytes) */
+static int spy_wire = -1;
+static void spy_dump(const char *dir, int slot, const void *p, size_t n) {
+  const unsigned char *b = (const unsigned char *)p;
+  printf(" %s%d=%zu:", dir, slot, n);
+  for (size_t j = 0; p && j < n; j++) printf("%02x", b[j]);
+}
 static int32_t spy_invoke(ObjectCxt h, ObjectOp op, ObjectArg *a, ObjectCounts k) {
   (void)h;
   if (ObjectOp_isLocal(op)) return Object_invoke(spy_inner, op, a, k);
+  if (spy_wire < 0) spy_wire = getenv("L2_WIRE") != NULL;
+  if (spy_wire) {
+    printf("wire op=%d k=0x%x", (int)ObjectOp_methodID(op), (unsigned)k);
+    for (size_t i = ObjectCounts_indexBI(k); i < ObjectCounts_indexBI(k) + ObjectCounts_numBI(k); i++) spy_dump("bi", (int)i, a[i].bi.ptr, a[i].bi.size);
+    for (size_t i = ObjectCounts_indexBO(k); i < ObjectCounts_indexBO(k) + ObjectCounts_numBO(k); i++) printf(" cap%d=%zu", (int)i, a[i].b.size);
+    printf("\n");
+  }
   for (size_t i = ObjectCounts_indexBI(k); i < ObjectCounts_indexBI(k) + ObjectCounts_numBI(k); i++) if (!spy_is_object_slot(&a[i])) spy_scan("in", op, (int)i, a[i].bi.ptr, a[i].bi.size);
   int32_t r = Object_invoke(spy_inner, op, a, k);
   if (r == Object_OK)
     for (size_t i = ObjectCounts_indexBO(k); i < ObjectCounts_indexBO(k) + ObjectCounts_numBO(k); i++) if (!spy_is_object_slot(&a[i])) spy_scan("out", op, (int)i, a[i].b.ptr, a[i].b.size);
+  if (spy_wire) {
+    printf("wired op=%d status=%d", (int)ObjectOp_methodID(op), (int)r);
+    if (r == Object_OK)
+      for (size_t i = ObjectCounts_indexBO(k); i < ObjectCounts_indexBO(k) + ObjectCounts_numBO(k); i++) spy_dump("bo", (int)i, a[i].b.ptr, a[i].b.size);
+    printf("\n");
+  }
   return r;
 }
 /* refusal by the skeletons of all three backends (C04): every method op is invoked directly on an
